@@ -87,7 +87,7 @@ typedef struct fx {
     char path_cal[720], path_badcal[720], path_vercal[720], path_npd[720],
 	 path_s2p[720], path_bad[720], path_none[720], path_nodir[720],
 	 path_out[720], path_yaml[720], path_dig[720];
-    char path_mal[8][720];	/* malformed data files, see fx_malformed[] */
+    char path_mal[12][720];	/* malformed data files, see fx_malformed[] */
     void *blocks[160];
     int nblocks;
     int built;
@@ -134,6 +134,11 @@ static const struct { const char *name, *ext, *text; int em; } fx_malformed[] = 
 	" 0." FXZ10 FXZ10 FXZ10 FXZ10 FXZ10 FXZ10
 	      FXZ10 FXZ10 FXZ10 FXZ10 FXZ10 FXZ10 "0000005\n"
 	"4e9 bogus 1\n", EM_BADMSG },
+    { "ts1-negative-frequency", "s1p",
+	"# Hz S RI R 50\n-1e9 0.5 0.1\n2e9 0.4 0.2\n", EM_BADMSG },
+    { "npd-unknown-parameter-name", "npd",
+	"#NPD\n#:version 1.0\n#:ports 1\n#:frequencies 1\n"
+	"#:parameters Xri\n#:z0 50.0 +0.0j\n1.0e+09 0.5 0.1\n", EM_BADMSG },
     { "ts2-long-keyword", "ts",
 	"[Version] 2.0\n# Hz S RI R 50\n[Number of Ports] 1\n"
 	"[" FXZ10 FXZ10 FXZ10 FXZ10 FXZ10 FXZ10 "00]\n", EM_BADMSG },
